@@ -1,7 +1,7 @@
 (* C04 -- Epoch +/- Duration is exact in the epoch's own time scale; differences invert it.
    Statements only; all nine time scales (the scale is never inspected by these operations). *)
 From Coq Require Import ZArith Bool List.
-From HF Require Import MachInt GenConsts Duration Epoch SignedNs DurationP EpochP.
+From HF Require Import MachInt GenConsts Duration Epoch SignedNs DurationP EpochP F64 DurationF64 Views F64ExactP.
 Open Scope Z_scope.
 
 Theorem C04_add_exact_same_scale : forall e d, canon (dur e) -> canon d ->
@@ -34,6 +34,11 @@ Proof. exact add_diff_back. Qed.
 Theorem C04_diff_in_left_scale : forall a b,
   epoch_diff a b = option_map (fun b' => dur_sub (dur a) (dur b')) (to_time_scale b (scale a)).
 Proof. reflexivity. Qed.
+
+(* Epoch + f64 with float seconds that are an exact integer (nanosecond count below 2^53): exactly that many seconds, same scale *)
+Theorem C04_add_f64_integer : forall e k, Z.abs (k * 1000000000) < 2 ^ 53 ->
+  epoch_add_f64 e (f_of_Z k) = epoch_add e (unit_mul_i64 Second k).
+Proof. exact epoch_add_f64_integer. Qed.
 
 Example C04_nonvacuous :
   let e := mkE (mkD (-1) 3155759999999999993) GPST in let d := mkD 1 5 in
